@@ -78,6 +78,10 @@ def run_shard(spec, rec):
         check_seq(R.instantiate(protos, combo), dict(sequence=list(combo)), rec, resolve_citations)
         rec.count("focus_sequences")
         rec.nontrivial(combo)
+    for combo in R.collision_sequences(random.Random(spec["seed"] + 57), 400):
+        check_seq(R.instantiate(protos, combo), dict(sequence=list(combo)), rec, resolve_citations)
+        rec.count("collision_sequences")
+        rec.nontrivial(combo)
     rng = random.Random(spec["seed"])
     allk = list(protos)
     for _ in range(spec["ndoc"]):
